@@ -236,6 +236,14 @@ pub fn search(tier: &str, seed: u64, s: &mut Search) {
         );
         let leaf = match i % 8 {
             0 => format!(r#"<rect x="{x}" y="{y}" width="{sw}" height="{sh}" fill="red"{stroke}/>"#),
+            1 if i % 16 < 8 => {
+                // a sharp "V": the miter tip reaches far beyond the geometry, whatever the caps are
+                let join = *rng.pick(&["miter", "miter", "miter-clip"]);
+                format!(
+                    r#"<path d="M {x} {y} l {} {} l {} -{}" fill="none" stroke="blue" stroke-width="{}" stroke-linecap="{}" stroke-linejoin="{join}" stroke-miterlimit="{}"/>"#,
+                    rng.range(4, 10), 30 + sh, rng.range(4, 10), 30 + sh, *rng.pick(&["6", "10", "9.5"]), *rng.pick(&["butt", "round", "square"]), *rng.pick(&["10", "40", "4"])
+                )
+            }
             1 => format!(r#"<path d="M {x} {y} l {sw} 3 l -{} {sh} l 4 -9" fill="none"{stroke}/>"#, sw / 2),
             2 => format!(r#"<path d="M {x} {y} L {} {} L {} {}" fill="green"{stroke} marker-start="url(#mk)" marker-mid="url(#mk)" marker-end="url(#mk)"/>"#, x + sw, y + 2, x + sw / 3, y + sh),
             3 => format!(r#"<text x="{x}" y="{y}" font-size="{}" fill="black"{}>Ag{}</text>"#, rng.range(8, 30), if rng.chance(1, 2) { stroke.clone() } else { String::new() }, if rng.chance(1, 2) { "jÉ" } else { "" }),
